@@ -489,7 +489,7 @@ func RunWorker[C any](w World[C]) {
 		out := safeExec(w, c, env)
 		done(env)
 		l := &line{Type: "run", Run: i, Seed: seed, Outcome: out, ExecMs: time.Since(t0).Milliseconds()}
-		if nsamples < samples && out.Violation == nil {
+		if nsamples < samples && (out.Violation == nil || i >= 8) {
 			l.Sample = c
 			nsamples++
 		}
